@@ -27,6 +27,9 @@ def _tx_cm(name, with_src, props=("C13",)):
                "    g.transform.translate(1.0, 2.0, 3.0)\n"
                "    g.transform.save_state()\n"
                "    g.transform.scale(2.0)\n"
+               "    g.transform.restore_state()\n"
+               "    g.transform.restore_state()\n"
+               "    g.transform.translate(5.0, 0.0, 0.0)\n"
                "    if flag:\n"
                "        raise ValueError('body failed')\n")
         ctx.under_contract(f"GCodeCore.{name}"); ctx.under_contract("CoordinateTransformer._copy_state"); ctx.under_contract("CoordinateTransformer._revert_state")
